@@ -20,18 +20,72 @@ fn f(class: &str, detail: String) -> Finding {
     }
 }
 
+/// The linear model an entry point actually solved, as far as the certificate checks need
+/// it: for a direct entry point the `GenModel` itself, for a builder entry point what the
+/// builder's own `linearize()` produced (auxiliary columns and rows included).
+#[derive(Clone, Debug, Default)]
+pub struct RefModel {
+    /// Column names, in the compiled model's order.
+    pub names: Vec<String>,
+    /// (row name, coefficients by `names`, comparison, right-hand side)
+    pub rows: Vec<(String, Vec<f64>, Cmp, f64)>,
+    /// Bounds and integrality of the columns that are not variables of the `GenModel`.
+    pub aux: Vec<(String, f64, f64, bool)>,
+}
+
+/// Which names beyond the `GenModel`'s own variables an assignment may (and must) carry.
+pub enum Aux<'a> {
+    None,
+    /// Exactly these, once each.
+    Exactly(&'a [(String, f64, f64, bool)]),
+    /// Any `$`-prefixed name (the judge has no compiled model at hand).
+    AnyGenerated,
+}
+
+pub struct Values {
+    /// By `GenModel` variable order.
+    pub x: Vec<f64>,
+    pub aux: Vec<(String, f64)>,
+}
+
+impl Values {
+    pub fn get(&self, m: &GenModel, name: &str) -> Option<f64> {
+        m.vars
+            .iter()
+            .position(|v| v.name == name)
+            .map(|i| self.x[i])
+            .or_else(|| self.aux.iter().find(|(n, _)| n == name).map(|(_, v)| *v))
+    }
+}
+
 /// Values by model variable order, plus findings about the shape of the assignment.
-pub fn values_by_var(m: &GenModel, sol: &Sol, out: &mut Vec<Finding>) -> Option<Vec<f64>> {
+pub fn values_by_var(m: &GenModel, sol: &Sol, aux: Aux, out: &mut Vec<Finding>) -> Option<Values> {
     let mut vals: Vec<Option<f64>> = vec![None; m.n()];
+    let mut aux_vals: Vec<(String, f64)> = Vec::new();
     let mut ok = true;
     for (name, v) in &sol.assignment {
         match m.vars.iter().position(|x| &x.name == name) {
             None => {
-                out.push(f(
-                    "assignment-names",
-                    format!("solution assigns `{name}`, which is not a variable of the model"),
-                ));
-                ok = false;
+                let allowed = match &aux {
+                    Aux::None => false,
+                    Aux::Exactly(list) => list.iter().any(|(n, ..)| n == name),
+                    Aux::AnyGenerated => name.starts_with('$'),
+                };
+                if !allowed {
+                    out.push(f(
+                        "assignment-names",
+                        format!("solution assigns `{name}`, which is not a variable of the model"),
+                    ));
+                    ok = false;
+                } else if aux_vals.iter().any(|(n, _)| n == name) {
+                    out.push(f(
+                        "assignment-names",
+                        format!("variable `{name}` has more than one value"),
+                    ));
+                    ok = false;
+                } else {
+                    aux_vals.push((name.clone(), *v));
+                }
             }
             Some(i) => {
                 if vals[i].is_some() {
@@ -55,10 +109,24 @@ pub fn values_by_var(m: &GenModel, sol: &Sol, out: &mut Vec<Finding>) -> Option<
             ok = false;
         }
     }
+    if let Aux::Exactly(list) = &aux {
+        for (n, ..) in list.iter() {
+            if !aux_vals.iter().any(|(k, _)| k == n) {
+                out.push(f(
+                    "assignment-names",
+                    format!("variable `{n}` of the compiled model has no value"),
+                ));
+                ok = false;
+            }
+        }
+    }
     if !ok {
         return None;
     }
-    Some(vals.into_iter().map(|v| v.unwrap()).collect())
+    Some(Values {
+        x: vals.into_iter().map(|v| v.unwrap()).collect(),
+        aux: aux_vals,
+    })
 }
 
 /// (i) rows, bounds, integrality; (ii) reported objective; handles.
@@ -111,7 +179,7 @@ pub fn check_point(m: &GenModel, sol: &Sol, x: &[f64], out: &mut Vec<Finding>) {
     }
     let builder = sol.handle_values.is_some();
     let obj = m.objective_at(x) - m.offset + m.offset_as_seen_by(builder);
-    if !((sol.value - obj).abs() <= TOL * obj.abs().max(1.0)) {
+    if !((sol.value - obj).abs() <= TOL * obj.abs().max(m.value_scale())) {
         out.push(f(
             "objective-mismatch",
             format!(
@@ -160,18 +228,27 @@ pub fn check_point(m: &GenModel, sol: &Sol, x: &[f64], out: &mut Vec<Finding>) {
 }
 
 /// Reported named-row activities against the rows of `reference` (the linear model the
-/// solver was given) at the returned values.
+/// solver was given) at the returned values; and, for a compiled model, its own rows and
+/// the ranges of its auxiliary columns at the full returned assignment.
 pub fn check_row_activities(
-    reference_rows: &[(String, Vec<f64>)],
+    m: &GenModel,
+    reference: &RefModel,
     sol: &Sol,
-    x: &[f64],
+    vals: &Values,
     out: &mut Vec<Finding>,
 ) {
+    let col: Vec<f64> = reference
+        .names
+        .iter()
+        .map(|n| vals.get(m, n).unwrap_or(0.0))
+        .collect();
+    let act_of = |coefs: &[f64]| coefs.iter().zip(&col).map(|(c, v)| c * v).sum::<f64>();
     for (name, reported) in &sol.rows {
-        let candidates: Vec<f64> = reference_rows
+        let candidates: Vec<f64> = reference
+            .rows
             .iter()
-            .filter(|(n, _)| n == name)
-            .map(|(_, coefs)| coefs.iter().zip(x).map(|(c, v)| c * v).sum::<f64>())
+            .filter(|(n, ..)| n == name)
+            .map(|(_, coefs, ..)| act_of(coefs))
             .collect();
         if candidates.is_empty() {
             out.push(f(
@@ -193,22 +270,55 @@ pub fn check_row_activities(
             ));
         }
     }
+    if reference.aux.is_empty() {
+        return; // the rows are the GenModel's own: `check_point` has judged them
+    }
+    for (name, lo, hi, integer) in &reference.aux {
+        let Some(v) = vals.get(m, name) else { continue };
+        if !v.is_finite() {
+            out.push(f("non-finite-value", format!("{name} = {v}")));
+            continue;
+        }
+        if v < lo - TOL * lo.abs().max(1.0) || v > hi + TOL * hi.abs().max(1.0) {
+            out.push(f("bound-violated", format!("{name} = {v} outside [{lo}, {hi}]")));
+        }
+        if *integer && (v - v.round()).abs() > TOL {
+            out.push(f("integrality-violated", format!("{name} = {v} is not integral")));
+        }
+    }
+    for (ri, (name, coefs, cmp, rhs)) in reference.rows.iter().enumerate() {
+        let act = act_of(coefs);
+        let scale = coefs
+            .iter()
+            .zip(&col)
+            .map(|(c, v)| (c * v).abs())
+            .fold(rhs.abs().max(1.0), f64::max);
+        let viol = match cmp {
+            Cmp::Le => act - rhs,
+            Cmp::Ge => rhs - act,
+            Cmp::Eq => (act - rhs).abs(),
+        };
+        if !(viol <= TOL * scale) {
+            out.push(f(
+                "row-violated",
+                format!(
+                    "compiled row {ri} `{name}`: activity {act} vs {cmp:?} {rhs} (violation {viol:e})"
+                ),
+            ));
+        }
+    }
 }
 
 fn runaway(sol: &Sol) -> bool {
     sol.value.abs() > 1e6 || sol.assignment.iter().any(|(_, v)| v.abs() > 1e6)
 }
 
-fn within_gap(value: f64, opt: f64, gap: f64) -> bool {
-    (value - opt).abs() <= gap * value.abs().max(opt.abs()) + TOL * opt.abs().max(1.0)
+fn within_gap(value: f64, opt: f64, gap: f64, scale: f64) -> bool {
+    (value - opt).abs() <= gap * value.abs().max(opt.abs()) + TOL * opt.abs().max(scale)
 }
 
 /// C04: everything that must hold of any returned solution.
-pub fn judge_c04(
-    m: &GenModel,
-    reference_rows: &[(String, Vec<f64>)],
-    res: &RunResult,
-) -> Vec<Finding> {
+pub fn judge_c04(m: &GenModel, reference: &RefModel, res: &RunResult) -> Vec<Finding> {
     let mut out = Vec::new();
     if let Outcome::Sol(sol) = &res.outcome {
         if runaway(sol) {
@@ -224,9 +334,14 @@ pub fn judge_c04(
             ));
             return out;
         }
-        if let Some(x) = values_by_var(m, sol, &mut out) {
-            check_point(m, sol, &x, &mut out);
-            check_row_activities(reference_rows, sol, &x, &mut out);
+        let aux = if reference.aux.is_empty() {
+            Aux::None
+        } else {
+            Aux::Exactly(&reference.aux)
+        };
+        if let Some(vals) = values_by_var(m, sol, aux, &mut out) {
+            check_point(m, sol, &vals.x, &mut out);
+            check_row_activities(m, reference, sol, &vals, &mut out);
         }
     }
     out
@@ -245,7 +360,7 @@ pub fn judge_c05(m: &GenModel, truth: Verdict, cfg: &RunCfg, res: &RunResult) ->
             Label::Optimal => match truth {
                 Verdict::Optimal(opt) => {
                     let opt = opt.to_f64() - m.offset + m.offset_as_seen_by(cfg.entry.is_builder());
-                    if !within_gap(sol.value, opt, cfg.gap.allowed()) {
+                    if !within_gap(sol.value, opt, cfg.gap.allowed(), m.value_scale()) {
                         out.push(f(
                             "wrong-optimum",
                             format!(
@@ -358,9 +473,14 @@ pub fn judge_c15(m: &GenModel, truth: Verdict, cfg: &RunCfg, res: &RunResult) ->
     }
     match &res.outcome {
         Outcome::Sol(sol) => {
-            if let Some(x) = values_by_var(m, sol, &mut out) {
+            let aux = if sol.handle_values.is_some() && !m.decor.is_empty() {
+                Aux::AnyGenerated
+            } else {
+                Aux::None
+            };
+            if let Some(vals) = values_by_var(m, sol, aux, &mut out) {
                 let mut pf = Vec::new();
-                check_point(m, sol, &x, &mut pf);
+                check_point(m, sol, &vals.x, &mut pf);
                 for mut p in pf {
                     if p.class != "objective-mismatch" && p.class != "handle-value" {
                         p.class = format!("infeasible-solution:{}", p.class);
@@ -372,7 +492,7 @@ pub fn judge_c15(m: &GenModel, truth: Verdict, cfg: &RunCfg, res: &RunResult) ->
                 Label::Optimal => match truth {
                     Verdict::Optimal(opt) => {
                         let opt = opt.to_f64() - m.offset + m.offset_as_seen_by(cfg.entry.is_builder());
-                        if !within_gap(sol.value, opt, cfg.gap.allowed()) {
+                        if !within_gap(sol.value, opt, cfg.gap.allowed(), m.value_scale()) {
                             out.push(f(
                                 "optimal-label-outside-gap",
                                 format!(
